@@ -224,6 +224,8 @@ func checkC07(c *Ctx) (string, error) {
 	c.use(w)
 	checkItabSlots(c, sp, rw.RT("internal/runtime"))
 	checkMethodSetSource(c, sp)
+	checkClTypeArgQualifier(c, "R07.5", cp)
+	checkImplementsFullTable(c, rw.RT("internal/runtime"))
 	return "C07 (structural): attribute-flow - for the hash/name builders of ssa/abi (structHash, funcHash+tuple, interfaceHash, TypeName, NamedName, typeArgString, namedLikeTypeArgString) every accessor go/types' Identical consults for that kind (field name, embedding, tag, package of unexported names, variadic-ness, channel direction, array length, element/key types, type arguments, scope disambiguator) must flow into the hash writer or the returned name, or control what is written; every types.NewX rebuild in ssa and cl must pass the source's identity attributes (tags, embedded flag, package, variadic, direction, length); TypeAssert's dispatch and failing edge; itab method-slot offset vs the runtime struct for both word sizes. NOT decided: absence of hash collisions, the runtime's Implements/findMethod search, link-time merging.", nil
 }
 
